@@ -11,7 +11,7 @@ cargo test -p "$(basename $crate)" --test $name --offline "$@" > /tmp/confirm-$$
 git apply "$patch" || { echo "PATCH-DOES-NOT-APPLY"; exit 3; }
 cargo test -p "$(basename $crate)" --test $name --offline "$@" > /tmp/confirm-$$-with.log 2>&1; with=$?
 rm -f "$crate/tests/$name.rs"
-cargo test --workspace --no-fail-fast --offline > /tmp/confirm-$$-suite.log 2>&1; suite=$?
+timeout 600 cargo test --workspace --no-fail-fast --offline > /tmp/confirm-$$-suite.log 2>&1; suite=$?
 git checkout -q -- . ; git clean -fdq -e target -e Cargo.lock
 echo "demo-without=$without demo-with=$with suite-with-change=$suite"
 if [ $without -eq 0 ] && [ $with -ne 0 ] && [ $suite -eq 0 ]; then echo CONFIRMED; else echo NOT-CONFIRMED; fi
